@@ -15,14 +15,21 @@ func judgeSeqCase(w *mc.Worker, c *seqCase, vars map[string]string, bal env.Bal,
 }
 
 func judgeSeqCaseMode(w *mc.Worker, c *seqCase, vars map[string]string, bal env.Bal, owns ownsFn, nontriv nontrivFn, attributeStmts bool, mode env.Mode) {
-	st := env.New(mode, bal, nil)
-	out := RunReal(c.PR, vars, st, nil)
-	in := ref.Inputs{Vars: vars, Bal: bal}
+	judgeSeqCaseX(w, c, vars, &originCase{Bal: bal}, owns, nontriv, attributeStmts, mode)
+}
+
+// judgeSeqCaseX: the same with store metadata and feature flags among the inputs.
+func judgeSeqCaseX(w *mc.Worker, c *seqCase, vars map[string]string, oc *originCase, owns ownsFn, nontriv nontrivFn, attributeStmts bool, mode env.Mode) {
+	bal := oc.Bal
+	st := env.New(mode, bal, oc.Meta)
+	out := RunReal(c.PR, vars, st, oc.Flags)
+	_, odFlag := oc.Flags["experimental-overdraft-function"]
+	in := ref.Inputs{Vars: vars, Bal: bal, Meta: oc.Meta, OverdraftFlag: odFlag}
 	model := ref.Run(c.Prog, in)
 	fs := judge(c.Prog, in, out, model)
 	attributed := false
 	if attributeStmts && model.Err == "" && out.Err == nil && out.Panic == "" && len(c.Stmts) > 1 {
-		per, ok := attribute(c, vars, bal, out)
+		per, ok := attribute(c, vars, oc, out)
 		if ok {
 			attributed = true
 			fs = append(fs, perStatementFindings(c, per, model)...)
@@ -30,7 +37,7 @@ func judgeSeqCaseMode(w *mc.Worker, c *seqCase, vars map[string]string, bal env.
 			w.Count("unattributable", 1)
 		}
 	}
-	key := c.Text + "|" + varsStr(vars) + "|" + balStr(bal) + "|" + mode.String()
+	key := c.Text + "|" + varsStr(vars) + "|" + balStr(bal) + "|" + fmt.Sprint(oc.Meta) + "|" + mode.String()
 	outcome := "model=" + orOK(model.Err) + " real=" + out.Class()
 	if model.Err == "" {
 		outcome += fmt.Sprintf(" stmts=%d postings=%d attributed=%v", len(c.Stmts), len(out.Postings), attributed)
@@ -38,7 +45,7 @@ func judgeSeqCaseMode(w *mc.Worker, c *seqCase, vars map[string]string, bal env.
 	nt := nontriv != nil && nontriv(model, out)
 	w.Eval(key, nt, outcome)
 	mk := func() Case {
-		cs := Case{Script: c.Text, Vars: copyVars(vars), Balances: balStr(bal), Store: mode.String(), Observed: out.Class() + ": " + postingsStr(out.Postings)}
+		cs := Case{Script: c.Text, Vars: copyVars(vars), Balances: balStr(bal), Meta: oc.Meta, Store: mode.String(), Observed: out.Class() + ": " + postingsStr(out.Postings)}
 		if out.Err != nil {
 			cs.Observed = out.Class() + ": " + out.Err.Error()
 		}
